@@ -131,6 +131,25 @@ func init() {
 		for _, k := range ks {
 			fmt.Printf("  %-55s %d\n", k, byKey[k])
 		}
+		if os.Getenv("DLINT_ALL") != "" {
+			short := func(id string) string {
+				id = strings.TrimPrefix(id, "go ")
+				if i := strings.Index(id, " in "); i > 0 {
+					id = id[:i]
+				}
+				return id
+			}
+			for _, c := range cs {
+				fmt.Printf("%-38s %s/%s:%s x %s/%s:%s w=%v\n", c.Key, short(c.A.Role.ID), c.A.Fn.Name(), strings.TrimPrefix(p.InstrPos(c.A.Instr), ""), short(c.B.Role.ID), c.B.Fn.Name(), p.InstrPos(c.B.Instr), c.B.Write)
+			}
+		}
+		if pr := os.Getenv("DLINT_PAIR"); pr != "" {
+			for _, c := range cs {
+				if strings.Contains(c.A.Role.ID+" <-> "+c.B.Role.ID, pr) || strings.Contains(c.B.Role.ID+" <-> "+c.A.Role.ID, pr) {
+					fmt.Printf("%-40s W %s@%s  x %s@%s w=%v\n", c.Key, FuncName(c.A.Fn), p.InstrPos(c.A.Instr), FuncName(c.B.Fn), p.InstrPos(c.B.Instr), c.B.Write)
+				}
+			}
+		}
 		if os.Getenv("DLINT_KEY") != "" {
 			for _, c := range cs {
 				if c.Key.String() == os.Getenv("DLINT_KEY") {
